@@ -1,6 +1,6 @@
 (* C15 - one call, one flushed-then-sent frame; stale frames are never taken as answers. Statements only. *)
 From Coq Require Import ZArith List Bool String.
-From UDS Require Import Lib.Bytes Lib.ErrM Model.Message Model.Client Model.Services Model.History
+From UDS Require Import Lib.Bytes Lib.ErrM Model.Message Model.Client Model.Services Model.History Model.Conn
   Proofs.C05_lemmas Proofs.Client_lemmas Proofs.History_lemmas.
 Import ListNotations.
 Open Scope Z_scope.
@@ -46,3 +46,17 @@ Theorem C15_timing : forall cfg st c now s,
     let '(_, st', _, _, _) := run_inner cfg st c now s in st' = st end.
 Proof. exact run_inner_timing. Qed.
 Print Assumptions C15_timing.
+
+(* a connection whose send() raises after it has written the frame: the call ends with that error; the trace is the
+   flush, then exactly one send, then nothing (no second attempt, no read); the client state is unchanged *)
+Theorem C15_send_fault : forall cfgv st now c code pre,
+  upto_first_send (trace_of (run_call (cfg_of cfgv) st c now [])) = Some pre ->
+  step_op cfgv st now (OCallSendFault c code) = (2 :: code :: 0 :: enc_trace pre ++ [now], cfgv, st, now)
+  /\ exists l p, pre = l ++ [EvS p] /\ forallb (fun e => negb (is_send e)) l = true.
+Proof. exact send_fault_one_frame. Qed.
+Print Assumptions C15_send_fault.
+
+(* BaseConnection.send hands the payload to the transport exactly once, whatever the transport then raises *)
+Theorem C15_base_send_once : forall payload fault, base_send true payload fault = ([payload], fault).
+Proof. reflexivity. Qed.
+Print Assumptions C15_base_send_once.
